@@ -122,7 +122,8 @@ def _make(buf_lens, events, data_lens):
         except ScriptExhausted:
             assume(False)
         except Exception as e:  # noqa: BLE001
-            return V("readline-unexpected-exception", lambda: f"{type(e).__name__}: {e}")
+            msg = f"{type(e).__name__}: {e}"
+            return V("readline-unexpected-exception", msg)
         sf = d._socketfile
         consumed = _join(sf.delivered)
         stream = old + consumed
